@@ -283,6 +283,13 @@ def replay(path):
         doc = json.load(f)
     case = doc.get('case') or {}
     print('replaying', doc.get('key'), case)
+    if 'extension' in case:
+        r = loadback_case((common.seed(), 1000, case['extension']))
+        print(r)
+        if r:
+            print('VIOLATION property=C12 replay=%s' % path)
+            return 1
+        return 0
     if case.get('loader') == 'data':
         from props import loadervc
         r = loadervc.replay_data_loader({k: case[k] for k in ('org', 'length', 'start', 'stack')}, '')
